@@ -17,7 +17,8 @@ CHECKS = {
             "decoder API and via the per-type init/read callbacks on exact-size heap blocks; structured block/table headers with boundary "
             "values in count and single-code fields for the static-Huffman family and -pm2-; ASan/UBSan silence and "
             "'read returns at most k' are the oracle; one run in five has the source answer at most 1-3 bytes per request (S-SHORT), one in five keeps a "
-            "second decoder of the same method alive and releases it with its source half-way. Sampling of a corruption neighbourhood, not a proof.",
+            "second decoder of the same method alive and releases it with its source half-way; a small share of the runs enumerates, for one real "
+            "stream, every request index at which the source answers once with nothing (S-GAP). Sampling of a corruption neighbourhood, not a proof.",
             "Trusted: ASan + UBSan(bounds,null,pointer-overflow,...) see every invalid access except overflows that stay "
             "inside one allocation and are not statically bounded arrays.",
             "DESIGN.md 7 C09"),
@@ -29,7 +30,8 @@ CHECKS = {
             "stream, get_length/get_crc are compared with an independent bitwise CRC-16/ARC after every call, the "
             "monitor sequence is checked; unanswered request bytes are poisoned differently in the two runs so use of "
             "bytes the source never returned shows up deterministically; one run in four keeps a companion decoder of the same method on another "
-            "stream alive, reads it in between and releases it at a seeded point (each must yield what it yields alone).",
+            "stream alive, reads it in between and releases it at a seeded point (each must yield what it yields alone); the monitor may be attached "
+            "a second time; declared lengths around 2^32 with the first blocks read only (block arithmetic).",
             "Trusted: the reference run is the same library (history-invariance oracle, no plaintext ground truth); "
             "declared length capped at 1 MiB.",
             "DESIGN.md 7 C14"),
@@ -101,7 +103,8 @@ CHECKS.update({
             "Fault enumeration, complete over the single-fault space for each sampled well-formed header (levels 0-3, files, "
             "directories, symlinks, with/without extended headers, common CRC, Unix area), stream kinds rotating. One-directional "
             "oracle written from the statement: checker says FAIL => next_file returns NULL for it and for all later calls; single-bit "
-            "header faults are additionally combined with a failure of each of the first ten allocations (A-FAIL).",
+            "header faults are additionally combined with a failure of each of the first ten allocations (A-FAIL); one sampled header in five "
+            "stands first in the stream, where the search for the first header decides whether it is a header at all.",
             "The checker asserts only the rules listed in DESIGN appendix E; nothing is concluded when it passes a header.",
             "DESIGN.md 7 C12, appendix E"),
     "C18": ("exploration",
@@ -132,7 +135,8 @@ CHECKS.update({
             "targets, nothing unexpected, untouched originals) must equal the model tree; stdout for p. The simulated clock makes "
             "'directory keeps its recorded mtime although children were written later' an ordering constraint, uid 1000 makes "
             "'metadata only after contents' a permission constraint. One run in six has one system call of the extraction fail once "
-            "(F-SYSCALL): the object it was made for is excused, every other entry must still match exactly.",
+            "(F-SYSCALL): the object it was made for is excused, every other entry must still match exactly. Initial trees hold files, "
+            "directories, symbolic links (to directories, to nothing) and directories without write permission at the places the archive writes to.",
             "SimFS semantics are validated against the kernel (check selftest simfs); ownership, set-id bits, modes without recorded "
             "permissions and mtimes of directories holding unsafe symlinks are not compared; names are separator-free printable with a lower-case letter.",
             "DESIGN.md 7 C06, appendix G"),
